@@ -434,6 +434,10 @@ def run(ctx):
     from .c06 import payload_rules as _payload_rules
     _payload_rules(ctx, 'C19.1-payload-kept')
 
+    from ..families import check_error_swallow as _swallow
+    ctx.rule('C19.2-errors-surface', 'in the functions of this property that can themselves report failure, the Result of one of the repository\'s own fallible functions is never turned into "nothing" or a default (ok(), unwrap_or*, map_or*): an error must surface as an error, not as a value the callee never produced; a rule about what must not be there (exercised on the fixture every run)', floor=0)
+    _swallow(ctx, P, 'C19.2-errors-surface', ('edp_node::node::Node::spawn_receiver_task', 'edp_node::node::Node::route_message', 'edp_client::connection::Connection::receive_message_from_read_half'))
+
 
 def _outcomes(L, start, loop, recv_bb):
     """Outcomes {'continue','break'} reachable from `start`, propagating constant bools assigned on the
